@@ -30,6 +30,9 @@ def two_phase(n, tag, seed):
 
 def run(chk):
     q = chk.quick
+    # (B1) System end to end on the exact field model, random-oracle challenges (MC_Protocol: Completeness, RoleSync, FSBinding,
+    # RejectsInvalid, MegaIdentity), with non-vacuity probes
+    vlib.protocol_mc(chk)
     cfg = chk.path("tam.cfg")
     maxn = 5 if q else 9
     open(cfg, "w").write("SPECIFICATION TSpec\nCONSTANTS\n  P = 31723\n  MaxN = %d\nINVARIANT TInv\nINVARIANT Emit\nCHECK_DEADLOCK FALSE\n" % maxn)
